@@ -9,7 +9,7 @@ from vmc import core
 PROPERTY = "C08"
 ENGINE = "E1 schema-space"
 RULE = ("every point of the option lattice (Config x Config.dialect x call dialect x sort_keys x lazy x code-generation flag subsets "
-        "x keyword arguments x nested class kind) x every instance of the value grid: to_dict must equal PROJECT(effective options, "
+        "x keyword arguments x nested class kind x nested-class flag subsets differing from the outer ones) x every instance of the value grid: to_dict must equal PROJECT(effective options, "
         "plain output) with exact key order. Non-trivial: at least one option is in effect (the projection differs from the plain "
         "output); distinct = distinct (lattice point, instance).")
 ASSUMPTIONS = [
@@ -51,7 +51,18 @@ def units(tier):
                         lazy_opts = (False, True) if (full or (ci + flags) % 5 == 0) else (False,)
                         for lazy in lazy_opts:
                             out.append((tuple(sorted(cfg.items())), None if cd is None else tuple(sorted(cd.items())),
-                                        flags, sk, inner, lazy, tier))
+                                        flags, sk, inner, lazy, tier, None))
+    # uneven code-generation flags between the outer and the nested class (None above = the same flags on both sides)
+    uneven_cfgs = cfgs if full else [dict(), dict(omit_none=True), dict(serialize_by_alias=True)]
+    for cfg in uneven_cfgs:
+        for cd in ([None] + _vectors(full) if full else [None, dict(omit_none=True, serialize_by_alias=True)]):
+            for flags in range(8):
+                for iflags in range(8):
+                    if iflags == flags:
+                        continue
+                    for lazy in ((False, True) if full else (False,)):
+                        out.append((tuple(sorted(cfg.items())), None if cd is None else tuple(sorted(cd.items())),
+                                    flags, False, "mixin", lazy, tier, iflags))
     return out
 
 
@@ -77,7 +88,7 @@ def project(items, on, od, ba, sort_keys):
     return out
 
 
-def _build(cfg, cd, flags, sk, inner_kind, lazy):
+def _build(cfg, cd, flags, sk, inner_kind, lazy, iflags=None):
     from mashumaro import DataClassDictMixin
     from mashumaro.config import (ADD_DIALECT_SUPPORT, TO_DICT_ADD_BY_ALIAS_FLAG, TO_DICT_ADD_OMIT_NONE_FLAG,
                                   BaseConfig)
@@ -89,6 +100,9 @@ def _build(cfg, cd, flags, sk, inner_kind, lazy):
         fl.append(TO_DICT_ADD_BY_ALIAS_FLAG)
     if flags & 4:
         fl.append(ADD_DIALECT_SUPPORT)
+    ifl = list(fl)
+    if iflags is not None:
+        ifl = [o for bit, o in ((1, TO_DICT_ADD_OMIT_NONE_FLAG), (2, TO_DICT_ADD_BY_ALIAS_FLAG), (4, ADD_DIALECT_SUPPORT)) if iflags & bit]
     ns = dict(cfg)
     ns.update(sort_keys=sk, code_generation_options=fl, aliases={"c": "c_al"}, lazy_compilation=lazy)
     if cd is not None:
@@ -110,8 +124,8 @@ def _build(cfg, cd, flags, sk, inner_kind, lazy):
             class Config(BaseConfig):
                 omit_none = True
                 serialize_by_alias = True
-                code_generation_options = list(fl)
-        inner_cfg, inner_flags = dict(omit_none=True, serialize_by_alias=True), flags
+                code_generation_options = ifl
+        inner_cfg, inner_flags = dict(omit_none=True, serialize_by_alias=True), flags if iflags is None else iflags
 
     @dataclass
     class M(DataClassDictMixin):
@@ -147,11 +161,12 @@ def _inner_vals(Inner):
 
 def run_unit(unit, only=None):
     from mashumaro.dialect import Dialect
-    cfg_t, cd_t, flags, sk, inner_kind, lazy, tier = unit
+    cfg_t, cd_t, flags, sk, inner_kind, lazy, tier = unit[:7]
+    iflags = unit[7] if len(unit) > 7 else None
     cfg = dict(cfg_t)
     cd = None if cd_t is None else dict(cd_t)
     res = core.UnitResult()
-    M, Inner, inner_cfg, inner_flags = _build(cfg, cd, flags, sk, inner_kind, lazy)
+    M, Inner, inner_cfg, inner_flags = _build(cfg, cd, flags, sk, inner_kind, lazy, iflags)
     res.transitions += 1
     call_dialects = [None]
     if flags & 4:
@@ -210,8 +225,9 @@ def run_unit(unit, only=None):
                     # explicitly to the dialect-specific method and masks the call dialect's own option
                     a_on = kw["omit_none"] if "omit_none" in kw else (eff([cd, cfg], "omit_none") if flags & 1 else on)
                     a_ba = kw["by_alias"] if "by_alias" in kw else (eff([cd, cfg], "serialize_by_alias") if flags & 2 else ba)
-                    ai_on = a_on if (flags & 1 and inner_flags & 1) else i_on
-                    ai_ba = a_ba if (flags & 2 and inner_flags & 2) else i_ba
+                    both_d = flags & 4 and inner_flags & 4
+                    ai_on = a_on if (flags & 1 and inner_flags & 1) else (eff([inner_cfg], "omit_none") if (inner_flags & 1 and both_d) else i_on)
+                    ai_ba = a_ba if (flags & 2 and inner_flags & 2) else (eff([inner_cfg], "serialize_by_alias") if (inner_flags & 2 and both_d) else i_ba)
 
                     def inner_alt(x):
                         if x is None:
@@ -222,11 +238,11 @@ def run_unit(unit, only=None):
                     alt = project(aitems, a_on, od, a_ba, sk)
                     facts["kwflag_default_masks_call_dialect"] = bool(
                         isinstance(got, dict) and got == alt and list(got) == list(alt) and _deep_order(got, alt)
-                        and ((flags & 1 and "omit_none" not in kw and "omit_none" in calld)
-                             or (flags & 2 and "by_alias" not in kw and "serialize_by_alias" in calld)))
+                        and (((flags | inner_flags) & 1 and "omit_none" not in kw and "omit_none" in calld)
+                             or ((flags | inner_flags) & 2 and "by_alias" not in kw and "serialize_by_alias" in calld)))
                 if not good:
                     res.outcomes["neq" if oc == "ok" else oc] += 1
-                    res.violation(f"project-neq|{cfg_t}|{cd_t}|{flags}|{sk}|{inner_kind}|{lazy}|{sorted(kw.items())}|{calld}",
+                    res.violation(f"project-neq|{cfg_t}|{cd_t}|{flags}/{iflags}|{sk}|{inner_kind}|{lazy}|{sorted(kw.items())}|{calld}",
                                   "project-neq", oc,
                                   dict(unit=unit, call=(di, kwi, ii), kw=kw, call_dialect=calld, facts=facts),
                                   f"instance={inst!r:.200} expected={exp!r:.300} got={got!r:.300}")
